@@ -105,7 +105,7 @@ def showCall : Call → String
 def showReply (r : Reply) : String :=
   let rc := match r.rcode with | some n => toString n | none => "*"
   let log := if r.calls.isEmpty then "-" else ",".intercalate (r.calls.map showCall)
-  s!"reply rc={rc} id={r.id} op={r.opcode} rd={showBool r.rd} cd={showBool r.cd} aa={showBool r.aa} ra={showBool r.ra} q={showBool r.echo} opt={showBool r.opt} log={log}"
+  s!"reply qr={showBool r.qr} rc={rc} id={r.id} op={r.opcode} rd={showBool r.rd} cd={showBool r.cd} aa={showBool r.aa} ra={showBool r.ra} q={showBool r.echo} opt={showBool r.opt} log={log}"
 
 def showGate : Gate → String
   | .drop => "drop"
